@@ -430,6 +430,9 @@ func (immunityComp) Gen(rng *rand.Rand, tier string) [][]string {
 	for i := 0; i < nh; i++ {
 		chunks := pick(rng, 1, 1, 1, 2, 4, 16)
 		items := chunks * pick(rng, 1, 1, 2, 3, 4)
+		if rng.Intn(3) == 0 {
+			items += rng.Intn(chunks) // not a multiple of the chunk count: per-chunk limits are rounded down
+		}
 		if items < 4 {
 			items = 4
 		}
